@@ -283,6 +283,8 @@ func c11Child(args []string) int {
 				rawSrv, _ = b.newServer(&BatchObs{})
 			}
 			status, errs := 0, ""
+			// the body as THIS process built it (token blocks carry wall-clock fields, so the parent's copy may differ)
+			bytesC11Keep(out, tier, items, i)
 			res, err := rawSrv.Request(thttp.NewHTTPRequest(bytes.NewReader(it.Raw), it.Hdr))
 			if err != nil {
 				errs = "error"
@@ -423,8 +425,13 @@ func init() {
 			for i, it := range items {
 				if it.Kind == "raw" {
 					if l, ok := done[i]; ok {
-						raws = append(raws, it.Raw)
-						lines = append(lines, l)
+						// the bytes the child sent (written by bytesC11Keep), not this process's copy
+						f := filepath.Join(o.out, fmt.Sprintf("raw_%06d.bin", i))
+						if b, err := os.ReadFile(f); err == nil {
+							raws = append(raws, b)
+							lines = append(lines, l)
+							os.Remove(f)
+						}
 					}
 				}
 			}
